@@ -32,6 +32,9 @@ pub enum FundsSpec {
     ExtraDenom,
     Missing(u8),
     Nothing,
+    /// k-th coin doubled / halved
+    Double(u8),
+    Half(u8),
 }
 
 #[derive(Debug, Clone, Serialize, Deserialize)]
@@ -113,6 +116,8 @@ pub fn case_strat() -> impl Strategy<Value = Case> {
                 1 => Just(FundsSpec::ExtraDenom),
                 1 => (0u8..3).prop_map(FundsSpec::Missing),
                 1 => Just(FundsSpec::Nothing),
+                1 => (0u8..3).prop_map(FundsSpec::Double),
+                1 => (0u8..3).prop_map(FundsSpec::Half),
             ],
         ),
         proptest::option::weighted(0.3, (0u32..5000, 0u8..6)),
@@ -208,6 +213,19 @@ impl Engine for Creation {
                 }
             }
             FundsSpec::Nothing => funds.clear(),
+            FundsSpec::Double(k) => {
+                if !funds.is_empty() {
+                    let i = *k as usize % funds.len();
+                    funds[i].amount = funds[i].amount + funds[i].amount;
+                }
+            }
+            FundsSpec::Half(k) => {
+                if !funds.is_empty() {
+                    let i = *k as usize % funds.len();
+                    funds[i].amount = Uint128::new(funds[i].amount.u128() / 2);
+                    funds.retain(|c| !c.amount.is_zero());
+                }
+            }
         }
         // ---- the independent validity predicate, clause by clause
         let n = denoms.len();
